@@ -500,8 +500,13 @@ def crash_key(rep):
     inner = next((f for f in rep.frames if f[1]), None)
     fn = inner[0] if inner else None
     if not fn or fn == '?':
-        m = _re.search(r'xercesc_4_0::([A-Za-z0-9_]+::[A-Za-z0-9_~]+)', rep.text or '')
-        fn = m.group(1) if m else '?'
+        m = _re.search(r'xercesc_4_0::([A-Za-z0-9_]+::[A-Za-z0-9_~]+)\(', rep.text or '')
+        if m:
+            fn = m.group(1)
+        else:
+            # no symbolised frame (the symbolizer gives up on an overloaded machine): the source file named by the report
+            m = _re.search(r'/xercesc/[A-Za-z0-9_/]*?([A-Za-z0-9_]+\.(?:cpp|hpp|c)):\d+', rep.text or '')
+            fn = m.group(1) if m else '?'
     if rep.tool == 'ubsan':
         kind = rep.kind.split(' of ')[0]
         kind = _re.sub(r'[^A-Za-z ]+', '', kind).strip().replace(' ', '-')[:40]
